@@ -68,9 +68,10 @@ structure Host where
   ips : List Nat                       -- addresses of lo0 and eth0, in interface order
   portMap : List (Nat × List Sock)     -- udpConnMap.portMap
   nextId : Nat
+  closed : List Nat                    -- ids of sockets whose `closed` flag is set
 deriving Repr, DecidableEq
 
-def Host.new (ips : List Nat) : Host := { ips, portMap := [], nextId := 0 }
+def Host.new (ips : List Nat) : Host := { ips, portMap := [], nextId := 0, closed := [] }
 
 def pmGet (pm : List (Nat × List Sock)) (port : Nat) : Option (List Sock) :=
   (pm.find? (fun e => e.1 = port)).map (·.2)
@@ -144,7 +145,34 @@ def Host.bind (h : Host) (ip port offset : Nat) : Host × BindRes :=
       | none => (h, .inUse)
       | some h' => ({ h' with nextId := h.nextId + 1 }, .ok s)
 
-/-- `UDPConn.Close` → `onClosed(locAddr)` -/
-def Host.close (h : Host) (s : Sock) : Host := h.delete s.ip s.port
+/-- `UDPConn.Close`: a second Close returns errAlreadyClosed and does nothing; the first one calls
+    `onClosed(locAddr)` → `udpConns.delete` -/
+def Host.close (h : Host) (s : Sock) : Host :=
+  if h.closed.contains s.id then h
+  else { (h.delete s.ip s.port) with closed := s.id :: h.closed }
+
+inductive HostOp
+  | bind (ip port offset : Nat)
+  | close (k : Nat)          -- close the k-th socket ever created (no-op if there is none)
+deriving Repr, DecidableEq
+
+/-- state of a host history: the host and the sockets created so far, in creation order -/
+structure HostRun where
+  h : Host
+  created : List Sock
+deriving Repr, DecidableEq
+
+def HostRun.step (r : HostRun) : HostOp → HostRun × Option BindRes
+  | .bind ip port off =>
+    let x := r.h.bind ip port off
+    ({ h := x.1, created := match x.2 with | .ok s => r.created ++ [s] | _ => r.created }, some x.2)
+  | .close k =>
+    match r.created[k]? with
+    | some s => ({ r with h := r.h.close s }, none)
+    | none => (r, none)
+
+def HostRun.run (r : HostRun) : List HostOp → HostRun
+  | [] => r
+  | op :: ops => (r.step op).1.run ops
 
 end TV.Addressing
